@@ -1,9 +1,32 @@
 package props
 
 import (
+	"bytes"
+	"context"
 	"encoding/json"
 	"os"
+	"os/exec"
+	"time"
 )
+
+// RunSelf runs this binary again with the given arguments; returns exit code and output.
+func RunSelf(args, env []string, timeout time.Duration) (int, string) {
+	ctx, cancel := context.WithTimeout(context.Background(), timeout)
+	defer cancel()
+	cmd := exec.CommandContext(ctx, SelfExe, args...)
+	cmd.Env = append(append(os.Environ(), "GORACE=halt_on_error=1 exitcode=66"), env...)
+	var out bytes.Buffer
+	cmd.Stdout = &out
+	cmd.Stderr = &out
+	err := cmd.Run()
+	if ee, ok := err.(*exec.ExitError); ok {
+		return ee.ExitCode(), out.String()
+	}
+	if err != nil {
+		return -1, out.String() + err.Error()
+	}
+	return 0, out.String()
+}
 
 var (
 	SelfExe     string
